@@ -138,7 +138,19 @@ struct G<'a> {
     fi_alias: Option<i64>,   // a user name \let to \fi
     if_alias: Option<i64>,   // a user name \let to \iftrue
     else_alias: Option<i64>, // a user name \let to \else
+    case_alias: Option<i64>, // a user name \let to \ifcase
+    or_alias: Option<i64>,   // a user name \let to \or
+    profile: usize,          // index into PROFILES
 }
+
+/// Statement mixes.  Columns: chars, group, def, call, assignment, countdef, chardef, the, conditional,
+/// expandafter, noexpand, let, relax, stray brace.
+const PROFILES: [[u32; 14]; 4] = [
+    [8, 3, 4, 5, 6, 2, 1, 3, 4, 1, 1, 1, 1, 0],  // general
+    [3, 9, 2, 3, 12, 1, 0, 7, 2, 0, 0, 2, 0, 0], // scoping: few registers, small values, many groups and prefixes
+    [5, 2, 8, 12, 2, 0, 0, 1, 2, 3, 1, 2, 0, 0], // macros
+    [6, 2, 2, 3, 3, 0, 0, 2, 14, 1, 0, 1, 0, 1], // conditionals
+];
 
 const LETTERS: &[u8] = b"abcxyz";
 const PUNCT: &[u8] = b".,;!?";
@@ -160,6 +172,10 @@ impl G<'_> {
         }
     }
     fn literal(&mut self, out: &mut Vec<T>) {
+        if self.profile == 1 {
+            out.push(T::Ch(b'0' + self.rng.below(3) as u8));
+            return;
+        }
         let n = match self.rng.below(6) {
             0 => 0,
             1 => self.rng.range(0, 3),
@@ -221,12 +237,14 @@ impl G<'_> {
             out.push(self.cs("globaldefs"));
         } else {
             out.push(self.cs("count"));
-            out.push(T::Ch(b'0' + self.rng.below(4) as u8));
+            let nreg = if self.profile == 1 { 2 } else { 4 };
+            out.push(T::Ch(b'0' + self.rng.below(nreg) as u8));
             out.push(T::Sp);
         }
     }
     fn prefix(&mut self, out: &mut Vec<T>) {
-        if self.rng.chance(1, 4) {
+        let (n, d) = if self.profile == 1 { (2, 5) } else { (1, 4) };
+        if self.rng.chance(n, d) {
             out.push(self.cs("global"));
         }
     }
@@ -297,6 +315,13 @@ impl G<'_> {
             6 => (vec![], vec![vec![], vec![]]),
             7 => (vec![], vec![d(b'.')]),
             8 => (vec![], vec![d(b';'), vec![]]),
+            _ if self.profile == 2 => match self.rng.below(4) {
+                // delimiters with repeated prefixes (the matcher has to back up), several delimited parameters
+                0 => (vec![], vec![vec![T::Ch(b'a'), T::Ch(b'a'), T::Ch(b'b')]]),
+                1 => (vec![], vec![vec![T::Ch(b'a'), T::Ch(b'b'), T::Ch(b'a'), T::Ch(b'c')], vec![]]),
+                2 => (vec![], vec![d(b','), d(b','), d(b'.')]),
+                _ => (vec![], vec![vec![T::Ch(b'.'), T::Sp], vec![T::Cs(id("relax"))]]),
+            },
             _ => (d(b'!'), vec![vec![T::Ch(b'.'), T::Ch(b'.')]]),
         };
         let mut text = pre.clone();
@@ -398,6 +423,19 @@ impl G<'_> {
                     }
                 }
             }
+            // near misses: proper prefixes of the delimiter inside the argument, a delimiter hidden in braces
+            if dl.len() > 1 && self.rng.chance(1, 2) {
+                let k = 1 + self.rng.below(dl.len() as u64 - 1) as usize;
+                out.extend(dl[..k].iter().cloned());
+                if self.rng.chance(1, 2) {
+                    out.extend(dl[..k].iter().cloned());
+                }
+            }
+            if !dl.is_empty() && self.rng.chance(1, 6) {
+                out.push(T::Lb);
+                out.extend(dl.iter().cloned());
+                out.push(T::Rb);
+            }
             out.extend(dl.iter().cloned());
         }
     }
@@ -436,11 +474,17 @@ impl G<'_> {
                 self.int(out, maxuser);
             }
             _ => {
-                out.push(self.cs("ifcase"));
+                out.push(match self.case_alias {
+                    Some(a) if self.rng.chance(1, 3) => T::Cs(a),
+                    _ => self.cs("ifcase"),
+                });
                 self.int(out, maxuser);
                 self.block(out, depth, maxuser, in_body);
                 for _ in 0..self.rng.below(4) {
-                    out.push(self.cs("or"));
+                    out.push(match self.or_alias {
+                        Some(a) if self.rng.chance(1, 3) => T::Cs(a),
+                        _ => self.cs("or"),
+                    });
                     self.block(out, depth, maxuser, in_body);
                 }
                 if self.rng.chance(1, 2) {
@@ -468,18 +512,29 @@ impl G<'_> {
         if self.budget < 0 || depth > 4 {
             return self.chars(out);
         }
-        match self.rng.below(40) {
-            0..=7 => self.chars(out),
-            8..=10 => {
+        let w = &PROFILES[self.profile];
+        let total: u32 = w.iter().sum();
+        let mut r = self.rng.below(total as u64) as u32;
+        let mut cat = 0;
+        for (i, x) in w.iter().enumerate() {
+            if r < *x {
+                cat = i;
+                break;
+            }
+            r -= *x;
+        }
+        match cat {
+            0 => self.chars(out),
+            1 => {
                 out.push(T::Lb);
                 self.block(out, depth, maxuser, in_body);
                 out.push(T::Rb);
             }
-            11..=14 if !in_body => self.def(out, depth, maxuser, false),
-            11 if maxuser > 0 => self.def(out, depth, maxuser, true),
-            15..=19 => self.call(out, depth, maxuser),
-            20..=25 => self.assignment(out, maxuser),
-            26 | 27 if maxuser > 0 => {
+            2 if !in_body => self.def(out, depth, maxuser, false),
+            2 if maxuser > 0 && self.rng.chance(1, 3) => self.def(out, depth, maxuser, true),
+            3 => self.call(out, depth, maxuser),
+            4 => self.assignment(out, maxuser),
+            5 if maxuser > 0 => {
                 let i = self.rng.below(maxuser.min(8) as u64) as usize;
                 self.prefix(out);
                 out.push(self.cs("countdef"));
@@ -491,7 +546,7 @@ impl G<'_> {
                 out.push(T::Sp);
                 self.guess[i] = Guess::CDef;
             }
-            28 if maxuser > 0 => {
+            6 if maxuser > 0 => {
                 let i = self.rng.below(maxuser.min(8) as u64) as usize;
                 out.push(self.cs("chardef"));
                 out.push(self.user(i));
@@ -502,15 +557,15 @@ impl G<'_> {
                 out.push(T::Sp);
                 self.guess[i] = Guess::ChDef;
             }
-            29..=31 => {
+            7 => {
                 out.push(self.cs("the"));
                 match self.rng.below(5) {
                     0 => out.push(self.cs("globaldefs")),
                     _ => self.var(out, maxuser),
                 }
             }
-            32..=35 => self.conditional(out, depth, maxuser, in_body),
-            36 => {
+            8 => self.conditional(out, depth, maxuser, in_body),
+            9 => {
                 // \expandafter, also in chains
                 let n = *self.rng.pick(&[1u32, 1, 1, 3]);
                 for _ in 0..n {
@@ -525,12 +580,12 @@ impl G<'_> {
                 }
                 self.call(out, depth, maxuser);
             }
-            37 if maxuser > 0 => {
+            10 if maxuser > 0 => {
                 out.push(self.cs("noexpand"));
                 let i = self.rng.below(maxuser.min(8) as u64) as usize;
                 out.push(self.user(i));
             }
-            38 if maxuser > 1 => {
+            11 if maxuser > 1 => {
                 // \let target = source with source below target (no recursion through aliases)
                 let ti = 1 + self.rng.below((maxuser.min(8) - 1) as u64) as usize;
                 self.prefix(out);
@@ -556,6 +611,7 @@ impl G<'_> {
                     }
                 }
             }
+            13 if !in_body => out.push(if self.rng.chance(1, 2) { T::Lb } else { T::Rb }),
             _ => out.push(self.cs("relax")),
         }
     }
@@ -564,7 +620,25 @@ impl G<'_> {
 pub fn gen_program(rng: &mut Rng) -> Vec<T> {
     let mut out = vec![];
     let size = *rng.pick(&[4i32, 8, 12, 20, 30]);
-    let mut g = G { rng, guess: vec![Guess::Undef; 8], budget: size, fi_alias: None, if_alias: None, else_alias: None };
+    let profile = *rng.pick(&[0usize, 0, 1, 1, 2, 3]);
+    let mut g = G {
+        rng,
+        guess: vec![Guess::Undef; 8],
+        budget: size,
+        fi_alias: None,
+        if_alias: None,
+        else_alias: None,
+        case_alias: None,
+        or_alias: None,
+        profile,
+    };
+    if profile == 3 && g.rng.chance(1, 3) {
+        out.extend([g.cs("let"), g.user(4), g.cs("ifcase"), g.cs("let"), g.user(3), T::Ch(b'='), g.cs("or")]);
+        g.guess[4] = Guess::Alias;
+        g.guess[3] = Guess::Alias;
+        g.case_alias = Some((FIRST_USER + 4) as i64);
+        g.or_alias = Some((FIRST_USER + 3) as i64);
+    }
     // aliases of the conditional primitives (their *meaning* is what skipping must look at)
     if g.rng.chance(1, 4) {
         out.extend([g.cs("let"), g.user(7), g.cs("fi")]);
